@@ -41,16 +41,18 @@ theorem C40_ids (adv : Nat) (rev : Bool) (evs : List Ev) :
 /-- a SYN_STREAM with an even id or an id below the highest seen is a connection error (GOAWAY PROTOCOL_ERROR),
     and creates nothing. -/
 theorem C40_bad_id_rejected (s : State) (id : Nat) (fin : Bool) (meth cl : Nat) (h0 : id ≠ 0)
-    (hb : id % 2 ≠ 1 ∨ id < s.maxId) :
+    (hg : s.inGoAway = false) (hb : id % 2 ≠ 1 ∨ id < s.maxId) :
     (step s (.syn id fin meth cl)).out = [.goaway s.maxId 1] ∧ (step s (.syn id fin meth cl)).st.opened = s.opened := by
   have hb' : (id % 2 ≠ 1 ∨ id < ({ s with kick := false } : State).maxId) := hb
-  simp only [step, h0, if_false, hb', if_true, goAway]
+  have hg' : ({ s with kick := false } : State).inGoAway = false := hg
+  simp only [step, h0, if_false, hb', if_true, goAway, hg, hg', Bool.false_eq_true, if_false]
   constructor <;> first | rfl | trivial
 
 /-- **Request headers**: a SYN_STREAM that announces a body (no FIN) with method HEAD, or with a Content-Length
     that is not a non-negative number, is answered with RST_STREAM(PROTOCOL_ERROR) (no handler is started: `handlers` is left as it was before the reset). -/
 theorem C40_malformed_request_reset (s : State) (id : Nat) (meth cl : Nat) (h0 : id ≠ 0) (hodd : id % 2 = 1)
-    (hgt : s.maxId < id) (hadv : s.cur + 1 ≤ s.adv) (hbad : meth = 2 ∨ cl = 1 ∨ cl = 2) :
+    (hg : s.inGoAway = false) (hgt : s.maxId < id) (hadv : s.cur + 1 ≤ s.adv)
+    (hbad : meth = 2 ∨ cl = 1 ∨ cl = 2) :
     (step s (.syn id false meth cl)).out.head? = some (.rst id 1) := by
   have h1 : ¬ (id % 2 ≠ 1 ∨ id < ({ s with kick := false } : State).maxId) := by
     show ¬ (id % 2 ≠ 1 ∨ id < s.maxId); omega
@@ -59,7 +61,8 @@ theorem C40_malformed_request_reset (s : State) (id : Nat) (meth cl : Nat) (h0 :
     show ¬ (s.cur + 1 > s.adv); omega
   have hb : (!false && (meth == 2 || cl == 1 || cl == 2)) = true := by
     rcases hbad with h | h | h <;> simp [h]
-  simp only [step, h0, if_false, h1, h2, h3, hb, if_true, reset]
+  have hg' : ({ s with kick := false } : State).inGoAway = false := hg
+  simp only [step, h0, if_false, h1, h2, h3, hb, if_true, reset, hg, hg', Bool.false_eq_true]
   rfl
 
 /-- **Declared length**: DATA beyond the announced Content-Length, and END_STREAM before it is reached, reset the
@@ -128,17 +131,37 @@ theorem C40_out_window (s : State) (st : St) (h : H) (r : Nat) (q : List Cmd) (s
     refine ⟨min r (allowed s st).toNat, hm.2.symm, hgt, ?_, ?_, ?_, Nat.min_le_left _ _⟩ <;> omega
   · cases hm
 
-/-- **Replenishment**: a handler read of `k` bytes emits WINDOW_UPDATE(connection, k), and for a stream that is
-    still open WINDOW_UPDATE(stream, k), with `k` at most what is buffered: the windows are replenished by the bytes
-    consumed, no more (the trace invariant bounds the result by the initial grant). -/
+/-- **Replenishment**: a handler read of `k` bytes (`read` = what the handler got) emits WINDOW_UPDATE(connection, k),
+    and for a stream that is still open WINDOW_UPDATE(stream, k), with `k` at most what is buffered: the windows are
+    replenished by exactly the bytes consumed.  The statement is about EVERY state `s` — in particular it does not
+    depend on `s.inGoAway`: after a graceful GOAWAY uploads in progress keep their windows open
+    (`C40_replenish_during_goaway` spells that instance out). -/
 theorem C40_replenish (s : State) (st : St) (h : H) (n : Nat) (q : List Cmd) (s' : State) (o : List Out)
     (hq : h.queue = .read n :: q) (hn : n ≠ 0) (hb : st.hasBody = true) (ha : st.alive = true) (hbuf : st.buf > 0)
     (hm : microH s st h = some (s', o)) :
-    o = [.wu 0 (min n st.buf)] ++ (if st.isOpen then [.wu h.id (min n st.buf)] else []) ∧ min n st.buf ≤ st.buf := by
+    o = [.read h.id (min n st.buf), .wu 0 (min n st.buf)] ++ (if st.isOpen then [.wu h.id (min n st.buf)] else []) ∧
+      min n st.buf ≤ st.buf := by
   unfold microH at hm
   simp only [hq, hn, hb, ha, Bool.not_true, Bool.false_eq_true, or_self, if_false, hbuf, if_true] at hm
   simp only [Option.some.injEq, Prod.mk.injEq] at hm
   exact ⟨hm.2.symm, Nat.min_le_right _ _⟩
+
+theorem C40_replenish_during_goaway (s : State) (st : St) (h : H) (n : Nat) (q : List Cmd) (s' : State)
+    (o : List Out) (_hg : s.inGoAway = true)
+    (hq : h.queue = .read n :: q) (hn : n ≠ 0) (hb : st.hasBody = true) (ha : st.alive = true) (hbuf : st.buf > 0)
+    (hm : microH s st h = some (s', o)) :
+    Out.wu 0 (min n st.buf) ∈ o ∧ (st.isOpen = true → Out.wu h.id (min n st.buf) ∈ o) := by
+  have := (C40_replenish s st h n q s' o hq hn hb ha hbuf hm).1
+  subst this
+  constructor
+  · simp
+  · intro ho; simp [ho]
+
+/-- a graceful shutdown sends GOAWAY(last stream id, OK) once and leaves every window and stream as it is. -/
+theorem C40_graceful (s : State) (hg : s.inGoAway = false) :
+    (step s .graceful).out = [.goaway s.maxId 0] ∧ (step s .graceful).st.streams = s.streams ∧
+      (step s .graceful).st.connIn = s.connIn ∧ (step s .graceful).status = .run := by
+  simp [step, hg]
 
 /-- every `panic(...)` call of the CURRENT package bfe_spdy (regenerated list) has a disposition in `panicTable`:
     modelled and shown unreachable, or outside this model for the recorded reason.  A new or reworded panic site
